@@ -13,6 +13,7 @@ import (
 	"os/exec"
 	"path/filepath"
 	"regexp"
+	"runtime"
 	"sort"
 	"strconv"
 	"strings"
@@ -188,6 +189,19 @@ func cmdCheck(args []string) int {
 	timeoutS := 20 // wall-clock per solver; generous so that a loaded machine does not turn a 3 s proof into a timeout
 	if *tier == "thorough" {
 		timeoutS = 60
+	}
+	// a machine that is busy with other work (1-minute load above the number of cores) gets proportionally longer
+	// wall-clock budgets, at most three times: the limits are meant as CPU time
+	if data, err := os.ReadFile("/proc/loadavg"); err == nil {
+		var l1 float64
+		if _, err := fmt.Sscanf(string(data), "%f", &l1); err == nil {
+			if f := l1 / float64(runtime.NumCPU()); f > 1 {
+				if f > 3 {
+					f = 3
+				}
+				timeoutS = int(float64(timeoutS) * f)
+			}
+		}
 	}
 	llvmEnv()
 	patterns := packagesFor(prop)
